@@ -211,6 +211,11 @@ func Check(root, id, tier string, seed uint64) (*Result, error) {
 			mf := MultiFile(c18Base(), k)
 			cases = append(cases, C14Cases(mf, []spec.Config{mf.Config}, seed+uint64(k), tier, nr)...)
 		}
+		// message types taken from other Go packages whose import paths share their last element
+		fp := ForeignProgram()
+		cases = append(cases, C14Cases(fp, ForeignConfigs(fp), seed+77, tier, nr)...)
+		fm := MultiFile(fp, 2)
+		cases = append(cases, C14Cases(fm, []spec.Config{fm.Config}, seed+78, tier, nr)...)
 		for i, rp := range randoms {
 			cases = append(cases, C14Cases(rp, C14ConfigsFor(rp), seed+uint64(i)+1, tier, nr)...)
 		}
